@@ -120,13 +120,14 @@ class SaveSim:
             faults = []
             if rng.random() < 0.4:
                 seam, kinds = rng.choice([
-                    ('write', ['ENOSPC', 'EIO', 'partial', 'crash', 'crash_after']),
+                    ('write', ['ENOSPC', 'EIO', 'EACCES', 'partial', 'crash', 'crash_after']),
                     ('write', ['crash_after', 'partial']),
+                    ('read', ['EIO', 'EIO', 'crash']),       # the source is still on disk when the save starts
                     ('ncfix.open', ['EACCES', 'EIO', 'crash']),
                     ('ncfix.setncattr', ['EIO', 'crash']),
                     ('ncfix.sync', ['EIO', 'ENOSPC', 'crash']),
                 ])
-                faults.append({'seam': seam, 'nth': 1, 'kind': rng.choice(kinds)})
+                faults.append({'seam': seam, 'nth': 1 if seam != 'read' else rng.choice([1, 1, 2, 3, 5]), 'kind': rng.choice(kinds)})
                 if faults[-1]['kind'] not in ('crash', 'crash_after', 'partial') and rng.random() < 0.35:
                     faults[-1]['persistent'] = True    # the condition does not clear by itself: a retry inside the call must not turn it into success
             end = 'crash_after_ack' if rng.random() < 0.4 else 'exit'
@@ -366,10 +367,14 @@ def _save_lifetime(ctx, world_spec, step, scratch, tz, src_path):
     world = worldgen.World(world_spec)
     if src_path is not None:
         ds = raw['open_dataset'](src_path)
+        ds_pre = raw['open_dataset'](src_path)
     else:
         ds = common.open_world(world, scratch, raw={'to_netcdf': raw['to_netcdf'], 'open_dataset': raw['open_dataset']})
+        # observed through a second, independent handle: the dataset that gets saved is still as lazy as it was opened
+        ds_pre = ds if world_spec['materialise'] == 'memory' else common.open_world(
+            world, scratch, raw={'to_netcdf': raw['to_netcdf'], 'open_dataset': raw['open_dataset']})
     try:
-        pre = observe.observe_dataset(ds, polygons=True)
+        pre = observe.observe_dataset(ds_pre, polygons=True)
     except Exception as e:
         pre = None
         ctx.emit('pre_observe_failed', **{k: v for k, v in observe.exc_info(e).items() if k != 'msg'})
